@@ -101,7 +101,41 @@ fn run_crafted(rep: &mut Report, rng: &mut Rng, thorough: bool) {
     }
 }
 
+/// the maximal LZMA chunk (compressed size field 0xFFFF): liblzma decodes it, so must both of our readers
+fn run_max_chunk(rep: &mut Report, rng: &mut Rng) {
+    let Some((stream, data)) = lzma2_max_compressed_chunk(rng.next()) else {
+        rep.notes.push("max-compressed-chunk: no input length gave exactly 65536 compressed bytes for this seed".into());
+        return;
+    };
+    let cap = data.len() + 64;
+    let detail = || json!({"direction": "crafted->both", "format": "raw lzma2", "chunks": ["lzma: compressed size 65536"], "stream_len": stream.len(), "stream_fnv": fnv(&stream), "data_len": data.len()});
+    rep.count("crafted.max-compressed-chunk");
+    match lref::lzma2_raw_decode(&stream, 1 << 16, cap) {
+        Ok(d) if d == data => {
+            match lzma2_decompress(&stream, 1 << 16, None, &[4096], cap) {
+                Outcome::Ok((out, used)) if out == data && used == stream.len() => {}
+                other => rep.fail("ours-lzma2-rejects:max-compressed-chunk", &format!("LZMA2Reader on a chunk of 65536 compressed bytes that liblzma decodes: {}", match &other { Outcome::Ok(_) => "different data".to_string(), o => o.describe() }), detail()),
+            }
+            for workers in [1u32, 3] {
+                let s2 = stream.clone();
+                let o = guard(|| {
+                    let mut r = lzma_rust2::LZMA2ReaderMT::new(s2.as_slice(), 1 << 16, None, workers);
+                    read_all_sched(&mut r, &[4096], cap)
+                });
+                match o {
+                    Outcome::Ok(out) if out == data => {}
+                    other => rep.fail("ours-lzma2mt-rejects:max-compressed-chunk", &format!("LZMA2ReaderMT ({workers} workers) on a chunk of 65536 compressed bytes that liblzma decodes: {}", match &other { Outcome::Ok(_) => "different data".to_string(), o => o.describe() }), detail()),
+                }
+            }
+            rep.case("crafted:lzma2:max-compressed-chunk".into(), true, || detail());
+        }
+        Ok(_) => rep.notes.push("max-compressed-chunk: liblzma decodes the crafted stream to different data (generator problem)".into()),
+        Err(e) => rep.notes.push(format!("max-compressed-chunk: liblzma rejects the crafted stream: {e}")),
+    }
+}
+
 pub fn run(rep: &mut Report, rng: &mut Rng, thorough: bool) {
+    run_max_chunk(rep, rng);
     run_crafted(rep, rng, thorough);
     let n = if thorough { 2000 } else { 160 };
     let max = if thorough { 1 << 20 } else { 100 << 10 };
